@@ -981,6 +981,17 @@ theorem follower_holds_prefix (n : Nat) (s : St) (hr : Reach n s) (l f : Nat)
   rw [(h.lead l hl).2, ← ht]
   exact (h.attd f hf).2
 
+/-- **the part of C02 that holds**: the whole prefix up to an acknowledged own-term entry is the same in the
+    log of every later leader - a read that shows nothing beyond such an offset is never rolled back.
+    (The implementation also shows entries a leader re-commits from older terms, beyond its last own-term
+    acknowledged offset; for those the statement is false: known finding D-40.) -/
+theorem acknowledged_prefix_never_rolled_back (n : Nat) (s : St) (hr : Reach n s) (t t2 : Int) (o : Nat) (e : Entry)
+    (hch : Chosen s t o) (hg : (s.G t)[o]? = some e) (he : e.term = t) (htt : t < t2) (hl : s.ldr t2 ≠ none) :
+    (s.G t2).take (o + 1) = (s.G t).take (o + 1) := by
+  have h := inv_reach n s hr
+  have h2 := leader_completeness n s hr t t2 o e hch hg he htt hl
+  rw [h.confG t2 o e h2, h.confG t o e hg]
+
 /-! ### what has been acknowledged stays acknowledged, in every later state -/
 
 inductive ReachFrom (s0 : St) : St → Prop
